@@ -1860,6 +1860,9 @@ class Exec:
                 st.ghost.setdefault('regex', []).append((pat, rep, self.seq(subj, st), t))
                 return [(st, VTuple([VBytes(t), VInt(fresh('nsub'))]) if name == 're.subn' else VBytes(t))]
             if name.split('.')[0] in ('warnings', 'logging') or name in ('print',):
+                hk = self.hooks.get(('ext', name))          # a scenario may observe warnings (C10: 'Incorrect crc24'); default: no effect
+                if hk is not None:
+                    return hk(self, st, None, A)
                 return [(st, VNone())]
             if name == 'hashes.Hash':
                 ref = 'hash!%d' % next(_fresh)
